@@ -255,7 +255,12 @@ def run(tier, seed, replay=None):
             "reproduced": len(confirmed),
             "not_reproduced": sorted(set(bad) - set(confirmed))[:10],
             "store_selftest": {"real_memory_cache_nonpositive_ttl": backend,
-                               "meaning": "noexpiry = Set with ttl <= 0 keeps the entry without expiry"},
+                               "real_redis_cache_nonpositive_ttl": "refuse" if any(
+                                   ev.get("store") == "redis" and ev.get("backend") == "refuse" for ev in lines) else "?",
+                               "meaning": "noexpiry = Set with ttl <= 0 keeps the entry without expiry; refuse = such a "
+                                          "Set stores nothing"},
+            "cases_by_store": {k: sum(1 for ev in lines if ev.get("ev") == "case" and (ev.get("store") or "memory") == k)
+                               for k in ("memory", "redis")},
             "via": {k: sum(1 for c in cases.values() if c["via"] == k) for k in ("mechanism", "service")},
             "mechanisms": sorted({c["mech"] for c in cases.values()}),
             "binding_selftest": selftest,
@@ -264,8 +269,10 @@ def run(tier, seed, replay=None):
         verdict.assumptions += [
             "time is not virtualised: expiries are offsets from time.Now() chosen by the driver, every class keeps "
             ">= 3 s from every threshold; exact-boundary behaviour is not explored",
-            "the Redis back end is represented by the model parameter 'refuse' in the design run only; the driver "
-            "uses the real in-memory cache",
+            "every third mechanism-level case keeps its entries in the real redis cache (internal/cache/redis, "
+            "standalone, client-side cache off) talking to miniredis, whose clock the driver moves to the wall clock "
+            "before every Get and Set; the others and all cases run through the assembled service use the real "
+            "in-memory cache",
             "remote systems are local test servers",
         ]
         return verdict.finish()
